@@ -10,7 +10,12 @@ same record object (scale-aware records of which only a LATER coordinate - Y or 
 again at once / later / in the next session; refused records written elsewhere), every accepted chunk compared through a private copy taken before
 the call; files next to their capacity (sparse file objects announcing 2**32 - 1 - n points: exactly the maximum accepted, one more refused, LAS 1.4
 beyond 2**32) with the rule of Model/AppendCap.v run next to every decision; appended chunks of lengths where block-wise copies change behaviour
-(multiples of 2**16, 2**17 +- 1, beyond 2**20) given as strided / reversed views."""
+(multiples of 2**16, 2**17 +- 1, beyond 2**20) given as strided / reversed views. Round 6: RICH sessions (lasio.rs_session): every chunk a SELECTION of a source cloud made in every way the API offers (slice, stepped /
+negative slice, mask as ndarray or python list, index ndarray, list, tuple, int, whole) from every record class (plain, scale-aware with the file's or another scaling,
+LasData.points[..], LasData[..].points, a view of a view), what must be stored computed by numpy on a private copy; the source's PointFormat OBJECT grown / shrunk in
+place between two chunks (then refused / accepted again); other files with the same kinds of KNOWN VLRs read / written / appended to while the session is open; the
+appender's own header edited between chunks; every way of ending (close twice, close inside the with-block, chunks after close; closefd False / True); real-world
+coordinates of every accepted scale-aware chunk judged on the bytes (|x_file - x_record| <= half a grid step)."""
 import io
 import os
 import tempfile
@@ -27,7 +32,12 @@ ASSUMPTIONS = ["uncompressed files (LAZ append is C14)", "rescaling of different
                "2**64 - 1 points (LAS 1.4) is out of reach",
                "I/O faults judged here: an append_points whose low-level write fails with OSError BEFORE storing any byte, followed by anything (with-block "
                "exit, more chunks, the same chunk again, close): the refused chunk counts as not accepted and the file must be equivalent to original ++ "
-               "accepted chunks. Torn writes (bytes stored) are C19's (reading never yields other records); C06 does not range over them"]
+               "accepted chunks. Torn writes (bytes stored) are C19's (reading never yields other records); C06 does not range over them",
+               "round 6: a chunk is what numpy selects from a private copy of the source array (the selection made by laspy must be those records); calls issued AFTER "
+               "the first close may be refused or accepted: accepted they must be stored like any chunk, refused they must leave no trace; a session whose OWN header "
+               "(appender.header) was edited while it was open may be refused at close - when its close succeeds the records and the statistics must be exact, byte "
+               "identity with the one-shot file of the ORIGINAL header is not asked for then; the model of such histories (Model/LasEnd.v arun_ops) is the appender with "
+               "a closed state (calls after the first close are inert), which is laspy's since fix 78ba7ec"]
 
 _SESS = None
 
@@ -292,6 +302,94 @@ def sessions_for(ctx):
     return _SESS
 
 
+_RICH = None
+
+
+def rich_sessions(ctx):
+    """round 6: rich APPEND sessions (see lasio.rs_session)"""
+    global _RICH
+    if _RICH is None:
+        _RICH = []
+        for i in range(ctx.n(260, 2600)):
+            try:
+                _RICH.append(lasio.rs_session(ctx.rng, "appender", ctx.thorough()))
+            except Exception as ex:
+                import traceback
+                _RICH.append({"error": f"{type(ex).__name__}: {ex} | " + traceback.format_exc()[-600:], "desc": {"generator": "rich append session"}})
+    return _RICH
+
+
+def rich_model_cmd(s):
+    """the model's arun command of a rich session that is an ordinary history (closed once, own header untouched, nothing rescaled), or None"""
+    if "error" in s or s["edited"] or s["rescaled"] or s["nclose"] != 1 or s["closes"] != ["ok"] or any(a is None for a in s["accepted"]) or len(s["base"]) > 60000:
+        return None
+    toks = []
+    acc = iter(s["accepted"])
+    for o in s["outs"]:
+        if o["n"] == 0:
+            toks.append("T")
+        elif o["outcome"] == "ok":
+            toks.append("T" + common.hexb(lasio.rec_bytes(next(acc))))
+        else:
+            toks.append("F" + common.hexb(bytes(o["n"] * s["ps"])))
+    return f"arun {common.hexb(s['base'])} {s['ps']} " + " ".join(toks)
+
+
+def rich_results(ctx):
+    """the property on the rich append sessions: [(kind, description, why)]"""
+    import laspy
+    out = []
+    for s in rich_sessions(ctx):
+        if "error" in s:
+            out.append(("rich append session could not be run", s["desc"], s["error"]))
+            continue
+        d = s["desc"]
+        tag = lasio.rs_tag(s)
+        ctx.case(("rich", repr(d["ops"]), s["final"]), nontrivial=any(o["outcome"] == "ok" and o["n"] for o in s["outs"]), sample={"session": d})
+        ctx.count("rich:" + tag.split(":")[0])
+        for o in s["outs"]:
+            ctx.count("rich-chunk:" + o["label"].split("[")[0] + ":" + ("empty" if o["n"] == 0 else o["expected"]) + ":" + o["outcome"])
+        for k, why in lasio.rs_outcome_problems(s):
+            out.append((tag + k, d, why))
+        if not s["closes"] or s["closes"][0] != "ok":
+            if not s["edited"]:
+                out.append((tag + "close raised", d, f"closing calls: {s['closes']}"))
+            continue
+        if any(a is None for a in s["accepted"]):
+            continue          # a foreign chunk was accepted (reported above): there is no one-shot file to compare with
+        fin = s["final"]
+        probs = lasio.raw_stats_problems(fin)
+        try:
+            if not probs and not s["rescaled"] and lasio.raw_records(fin) != s["accepted_bytes"]:
+                probs = [f"records: the file holds {len(lasio.raw_records(fin))} bytes of records which are not original ++ accepted chunks ({len(s['accepted_bytes'])} bytes)"]
+        except ValueError as ex:
+            probs = [f"header: {ex}"]
+        if probs:
+            out.append((tag + "header statistics / records not exact (" + probs[0].split(" ")[0] + ")", d, "; ".join(probs[:3])))
+            continue
+        probs = lasio.rs_world_problems(s)
+        if probs:
+            out.append((tag + "an appended scale-aware chunk lost its real-world coordinates", d, "; ".join(probs[:2])))
+            continue
+        if s["edited"]:
+            continue
+        probs = preserved_problems(s["base"], fin)
+        if probs:
+            out.append((tag + probs[0].split(":")[0] + " not preserved", d, "; ".join(probs[:3])))
+            continue
+        h = s["header"]
+        try:
+            A = laspy.PackedPointRecord.from_buffer(bytearray(s["orig"]), h.point_format) if s["orig"] else laspy.PackedPointRecord.zeros(0, h.point_format)
+            ref = write_ref(h, [A] + s["accepted"], s["evl"], {})
+        except Exception as ex:
+            out.append((tag + "the one-shot file of original ++ accepted chunks cannot be written", d, f"{type(ex).__name__}: {ex}"))
+            continue
+        if ref != fin:
+            diff = next((i for i, (a, b) in enumerate(zip(ref, fin)) if a != b), min(len(ref), len(fin)))
+            out.append((tag + f"appended file differs from one-shot ({'header' if diff < 375 else 'points/EVLRs'})", d, f"first differing byte {diff}; lengths {len(fin)} vs {len(ref)}"))
+    return out
+
+
 def correspond(ctx):
     ctx.extra["rule"] = ("random originals (every version/format, 0/1/3/12 points, +-VLRs, +-EVLRs, 30% with extra dims, 30% with non-ASCII header strings / VLR "
                          "descriptions, half of them with return numbers sweeping the whole range of the format) x 1..3 successive append sessions x 0..4 chunks "
@@ -301,7 +399,11 @@ def correspond(ctx):
                          "format) pair with every return number; ensembles of appenders alive together; strict appends on non-ASCII originals; non-ASCII "
                          "EVLR descriptions; one-off torn writes; scale-aware chunks of which only X / only Y / only Z does not fit the file's grid (refused), "
                          "repaired in place and appended again; sparse files announcing 2**32 - 1 - n points (capacity rule takes_more vs every decision); large "
-                         "strided appended chunks. non-trivial = at least one non-empty accepted chunk; distinct by description + bytes")
+                         "strided appended chunks; round 6: rich sessions - chunks SELECTED from a source cloud by slice / stepped / negative slice / mask (ndarray, list) / index "
+                         "ndarray / list / tuple / int / whole, from plain and scale-aware records (file's or another scaling), LasData.points[..], LasData[..].points, views of "
+                         "views; the source's PointFormat object grown / shrunk in place between chunks; other files with the same kinds of known VLRs (classification lookup, "
+                         "GeoTIFF, WKT, waveform) read / written / appended to meanwhile; the appender's own header edited between chunks; close / close twice / with / close "
+                         "inside with / chunks after close, closefd False / True. non-trivial = at least one non-empty accepted chunk; distinct by description + bytes")
     ss = sessions_for(ctx)
     dis = []
     cmds, idx = [], []
@@ -332,6 +434,38 @@ def correspond(ctx):
             ok = len(parts) >= 3 and parts[-2] == "ok" and common.unhex(parts[-1]) == nxt
             if not ok:
                 dis.append({"kind": "append session bytes", "input": s["desc"], "model": mo[:100], "impl": common.hexb(nxt)[:100]})
+    # round 6: the rich sessions that are ordinary histories (closed once, nothing rescaled, own header untouched): bytes vs the model's arun
+    rich = [(s, rich_model_cmd(s)) for s in rich_sessions(ctx)]
+    rich = [(s, c) for s, c in rich if c]
+    for (s, _), mo in zip(rich, common.run_model([c for _, c in rich])):
+        ctx.traces += 1
+        parts = mo.split(" ")
+        if not (len(parts) >= 3 and parts[-2] == "ok" and common.unhex(parts[-1]) == s["final"]):
+            dis.append({"kind": "append session bytes (selections / other files meanwhile)", "input": s["desc"], "model": mo[:100], "impl": common.hexb(s["final"])[:100]})
+    # round 6, driver "c06": the CALLS of the rich sessions with their closes (Model/LasEnd.v arun_ops: what follows the first close is inert;
+    # theorems C06_history_with_closes / C06_ended_session_file) and the in-place header rewrite of their first close (guarded_rewrite)
+    ok, log = common.build_driver("c06")
+    if ok:
+        rc = [(s, lasio.rs_aops_cmd(s)) for s in rich_sessions(ctx)]
+        rc = [(s, c) for s, c in rc if c]
+        for (s, _), mo in zip(rc, common.run_model([c for _, c in rc], name="c06")):
+            ctx.traces += 1
+            ctx.count("aops:" + ("closed once" if s["nclose"] == 1 else ("chunks after close" if any(o["after_close"] for o in s["outs"]) else "closed again")))
+            if s["closes"][0] != "ok":
+                good = mo.startswith("err")
+            else:
+                good = mo.startswith("ok ") and common.unhex(mo.split(" ")[1]) == s["final"]
+            if not good:
+                dis.append({"kind": "append history with closes: the file is not the one the first close produces from the calls before it", "input": s["desc"],
+                            "model": mo[:100], "impl": f"closes {s['closes']}; " + common.hexb(s["final"])[:80]})
+        rg = [(s, lasio.rs_grw_cmd(s)) for s in rich_sessions(ctx)]
+        rg = [(s, c) for s, c in rg if c]
+        for (s, _), mo in zip(rg, common.run_model([c for _, c in rg], name="c06")):
+            ctx.traces += 1
+            ctx.count("grw:appender:" + mo.split(" ")[0])
+            why = lasio.rs_grw_problem(s, mo)
+            if why:
+                dis.append({"kind": "in-place header rewrite at close (appender's own header edited or not)", "input": s["desc"], "model": mo[:60], "impl": why})
     # the capacity rule (Model/AppendCap.v takes_more, theorems C06_capacity / C06_capacity_same_rule) next to the implementation's decisions on
     # sparse files announcing 2**32 - 1 - n points (and 1.4 files around 2**32): driver "c06" (coq/ExtractC06.v)
     ok, log = common.build_driver("c06")
@@ -429,6 +563,10 @@ def search(ctx, seeds):
                 where = "header" if diff < 375 else "points/EVLRs"
                 add(f"appended file differs from one-shot ({where})", d, f"first differing byte {diff}; lengths {len(s['final'])} vs {len(ref)}")
     _guarded(add, 'append sessions', sec_append_sessions)
+    def sec_rich_sessions():
+        for kind, d, why in rich_results(ctx):
+            add(kind, d, why)
+    _guarded(add, 'selections / format objects / other files / endings', sec_rich_sessions)
     def sec_version_format_sweep():
         for kind, d, why in pair_sweep(ctx):
             add(kind, d, why)
@@ -469,7 +607,7 @@ def search(ctx, seeds):
             if accepted[:len(got)] != got:
                 add("failed append: file holds points that were not written", d, f"{len(las.points)} records read; not a prefix of old ++ accepted points")
     _guarded(add, 'failing destination', sec_failing_destination)
-    return failing[:8]
+    return failing[:10]
 
 
 def pair_sweep(ctx):
